@@ -272,6 +272,13 @@ func check(c Case) (msg, key string) {
 			os.Remove(filepath.Join(dir, v))
 		}
 		expectV, expectR = 1, 0
+	case "dup-slice": // one copy of a slice that occurs several times and one unique slice are overwritten; one recovery block
+		d := append([]byte{}, state[names[0]]...)
+		for k := S; k < 3*S && k < len(d); k++ {
+			d[k] = byte(k*7 + 3)
+		}
+		state[names[0]] = d
+		expectV, expectR = 1, 0
 	case "swap":
 		state[names[0]], state[names[1]] = state[names[1]], state[names[0]]
 		expectV, expectR = 1, 0
@@ -435,7 +442,7 @@ func check(c Case) (msg, key string) {
 	return "", ""
 }
 
-var states2 = []string{"intact", "stale-volumes", "cut-in-zero-tail", "symlinked-volumes", "dup-volume", "grown-16k", "repairable", "repairable-flip", "relocation", "length-only", "create-obstructed", "swap", "unrepairable", "noparity-damaged", "all-lost", "noparity-intact", "damaged-index", "missing-index", "unknown-ext"}
+var states2 = []string{"intact", "stale-volumes", "cut-in-zero-tail", "dup-slice", "symlinked-volumes", "dup-volume", "grown-16k", "repairable", "repairable-flip", "relocation", "length-only", "create-obstructed", "swap", "unrepairable", "noparity-damaged", "all-lost", "noparity-intact", "damaged-index", "missing-index", "unknown-ext"}
 var states1 = []string{"intact", "symlinked-volumes", "grown-16k", "repairable", "repairable-flip", "create-obstructed", "unrepairable", "noparity-damaged", "all-lost", "noparity-intact", "damaged-index", "missing-index", "unknown-ext"}
 
 var usages = [][]string{{}, {"frobnicate"}, {"frobnicate", "set.par2"}, {"v"}, {"verify"}, {"r"}, {"c"}, {"c", "set.par2"}, {"create", "set.par"}, {"-bogus", "v", "set.par2"},
@@ -454,6 +461,11 @@ func mk(format, state string, i int) Case {
 		c.N = 1 + i%2
 	}
 	if state == "dup-volume" {
+		c.N = 1
+	}
+	if state == "dup-slice" && format == "par2" {
+		// every slice of the first file is the same block, except the second one
+		c.Files[0] = scen.FileSpec{Name: "a.dat", Size: 8*c.Slice - i%3, Kind: "repeat", Seed: uint64(2 * i)}
 		c.N = 1
 	}
 	if state == "cut-in-zero-tail" && format == "par2" {
